@@ -152,7 +152,14 @@ TrReplyReturn ==
     /\ st' = "dispatched"
     /\ UNCHANGED <<pi, sub, rep, fx>>
 
-TStep == TrReset \/ TrBuild \/ TrReplyIds \/ TrSubMsgBuilt \/ TrReply \/ TrReplyHandler \/ TrReplyReturn
+(* ---- generated code panicked while building a sub-message or dispatching a reply (data, not a tool failure) ---- *)
+TrPanic ==
+    /\ IsEvent("Panic")
+    /\ Chk(IF E.where = "build" THEN "C08" ELSE "C07", "generated_code_does_not_panic", l, FALSE)
+    /\ st' = "idle" /\ sub' = NoSub /\ rep' = NoRep /\ out' = NoOut
+    /\ UNCHANGED <<pi, fx>>
+
+TStep == TrPanic \/ TrReset \/ TrBuild \/ TrReplyIds \/ TrSubMsgBuilt \/ TrReply \/ TrReplyHandler \/ TrReplyReturn
 InvariantsHold ==
     /\ Chk("C07", "invariant_C07_DeclaredMethodRuns", l, C07_DeclaredMethodRuns')
     /\ Chk("C07", "invariant_C07_UncoveredOutcomeActsAsNoReply", l, C07_UncoveredOutcomeActsAsNoReply')
